@@ -17,24 +17,33 @@ STATEFUL = True
 THEOREMS = [
     "C19.std_shape", "C19.decl_syntax",
     "C19.closure", "C19.build_ok_iff", "C19.declare_order_irrelevant",
-    "C19.options_iff", "C19.added_to_all", "C19.add_ok_iff",
-    "C19.command_dispatch", "C19.parse_accepts", "C19.parse_rejects", "C19.parse_rejects_short", "C19.std_accepted",
-    "C19.accepts_iff",
+    "C19.options_iff", "C19.strings_iff", "C19.added_to_all", "C19.add_ok_iff",
+    "C19.command_dispatch", "C19.parse_accepts", "C19.parse_rejects", "C19.parse_rejects_short",
+    "C19.abbrev_unique", "C19.abbrev_ambiguous", "C19.accepts_iff", "C19.std_accepted",
+    "C19.verbose_cluster", "C19.dd_words",
     "C19.default_is_first_public", "C19.default_cmd_partial", "C19.default_cmd_full_if_public_test",
     "C19.internal_name_gap",
+    "C19.parse_twice", "C19.no_log_file_attr", "C19.help_if_no_args", "C19.single_mode",
     "C19.default_cmd_internal_name_counterexample",
 ]
-RULE = ("one case = one ArgParser: declarations (chains, forests, diamonds, dense DAGs, a parent given together with its own "
-        "ancestor, repeated parents, '!' sets; blanks of 13 kinds / empty pieces in the parent list; malformed: "
-        "unknown/forward/self parents, duplicate and empty names, no commands, all internal, bad default), 0-7 add_argument "
-        "calls (ArgParser itself, public and internal parsers, unknown command; flags, value options, positionals; a stream "
-        "with conflicting strings), then argv per (public command, option string) plus random argv (std options, =value "
-        "forms, words, unknown options, no command name, unknown first word, -h), 2+ cases with an internal name first "
-        "(known finding), every strip() candidate character. non-trivial = a successfully built parser with >= 1 parent "
-        "edge, >= 1 option added to a command parser and >= 2 parse lines; distinct by protocol text")
-TRUSTED = ["argparse (option matching inside one parser; modelled for exact option strings, --opt=value and words only)"]
-ASSUMPTIONS = ["option strings in play are pairwise prefix-free, so no argparse abbreviation applies (hypotheses `hab` of "
-               "C19.parse_rejects / C19.accepts_iff; asserted for the generator's pool; the driver answers `ood` otherwise)",
+RULE = ("one case = one ArgParser: declarations (chains, forests, diamonds, dense DAGs, two arms with a late declared ancestor, "
+        "a parent given together with its own ancestor, repeated parents, '!' sets; names that contain each other / share "
+        "prefixes / contain '-', '_', digits, upper case / are pieces of '-h--help'; blanks of 13 kinds and empty pieces in the "
+        "parent list; malformed: unknown/forward/self parents, duplicate and empty names, no commands, all internal, bad "
+        "default), constructor switches _no_log/_no_log_file/_help_if_no_args, 0-8 add_argument calls (ArgParser itself, public "
+        "and internal parsers, unknown command; flags, value options, positionals with nargs absent/?/*/+; option strings that "
+        "are prefixes of each other and of the standard ones; a stream with conflicting strings; a stream where the default "
+        "command takes free words), then argv per (public command, option string) plus random argv (abbreviations, -xyz "
+        "clusters with attached values, --opt=value, --, '', '-', negative numbers, std options and their abbreviations, "
+        "unknown options, no command name, first words inside '-h--help', -h), 15% of them parsed twice from the same list "
+        "object; the single-command ArgParser (6%); cases with an internal name first (known finding); every strip() "
+        "candidate character. non-trivial = a successfully built multi-command parser with >= 1 parent edge, >= 1 option "
+        "added to a command parser and >= 2 parse lines; distinct by protocol text")
+TRUSTED = ["argparse 3.12 (the scan of one parser is a modelled function: exact strings, abbreviations, -xyz, --opt=value, "
+           "--, words, nargs absent/?/*/+; its agreement with the real argparse is established by the tie, not proved)"]
+ASSUMPTIONS = ["option strings are `-x` or `--name…`, distinct within one add_argument call (checked by the driver on every "
+               "request: `bad-op` otherwise)",
+               "at most one positional per parser unless all are nargs='*' (the model answers `ood` otherwise; generator keeps to it)",
                "argv strings are fresh objects (argparse's mutual-exclusion test compares values with `is`)",
                "after a failed add_argument the ArgParser object is abandoned (both sides answer `poisoned`)"]
 
@@ -77,7 +86,7 @@ def _read_source(repo):
     def visit(stmts, guarded):
         for st in stmts:
             if isinstance(st, ast.If):
-                # `if not self._no_log:` — the harness never passes _no_log, the body is executed
+                # `if not self._no_log:` — these options are absent when the ArgParser is built with _no_log=True
                 t = st.test
                 ok = (isinstance(t, ast.UnaryOp) and isinstance(t.op, ast.Not) and isinstance(t.operand, ast.Attribute)
                       and t.operand.attr == "_no_log")
@@ -118,7 +127,7 @@ def _read_source(repo):
                     kind = ".optChoice %s %s" % (_lean_list([_lean_str(x) for x in choices]), _lean_str(default))
                 else:
                     raise ValueError("standard option of an unmodelled kind: %s" % strings)
-                std.append((strings, kind, recv in groups))
+                std.append((strings, kind, recv in groups, guarded))
             elif isinstance(st, ast.Expr) and isinstance(st.value, ast.Constant):
                 pass
             else:
@@ -158,22 +167,29 @@ def _read_source(repo):
 
 def translate(repo):
     std, add_help, help_first, all_parsers = _read_source(repo)
-    specs = []
-    if add_help:
-        specs.append("{ strings := [%s, %s], kind := .help, mutex := false }" % (_lean_str("-h"), _lean_str("--help")))
-    for strings, kind, mutex in std:
-        specs.append("{ strings := %s, kind := %s, mutex := %s }" % (
-            _lean_list([_lean_str(s) for s in strings]), kind, "true" if mutex else "false"))
+
+    def table(no_log):
+        specs = []
+        if add_help:
+            specs.append("{ strings := [%s, %s], kind := .help, mutex := false }" % (_lean_str("-h"), _lean_str("--help")))
+        for strings, kind, mutex, guarded in std:
+            if guarded and no_log:
+                continue
+            specs.append("{ strings := %s, kind := %s, mutex := %s }" % (
+                _lean_list([_lean_str(s) for s in strings]), kind, "true" if mutex else "false"))
+        return ",\n  ".join(specs)
     body = ("-- GENERATED by harness/c19.py:translate from /repo/ak/cli_tools.py -- do not edit\n"
             "import AkVerif.Model.CliGraph\n"
             "namespace Gen.C19\n"
             "open CliGraph\n"
-            "/-- actions every command parser starts with: argparse's help (common_options is built with add_help)\n"
+            "/-- actions every parser starts with: argparse's help (the parsers are built with add_help)\n"
             "and the add_argument calls of `_mk_std_args`, in order -/\n"
             "def std : List OptSpec := [\n  %s ]\n"
+            "/-- the same when `_no_log=True` (the calls under `if not self._no_log:` are skipped) -/\n"
+            "def stdNoLog : List OptSpec := [\n  %s ]\n"
             "/-- `for choices in [[...], self.<collection>]` in `parse_args` -/\n"
-            "def cfg : Cfg := { std := std, helpFirst := %s, allParsers := %s }\n"
-            "end Gen.C19\n" % (",\n  ".join(specs), _lean_list([_lean_str(s) for s in help_first]),
+            "def cfg : Cfg := { std := std, stdNoLog := stdNoLog, helpFirst := %s, allParsers := %s }\n"
+            "end Gen.C19\n" % (table(False), table(True), _lean_list([_lean_str(s) for s in help_first]),
                                "true" if all_parsers else "false"))
     return {"AkVerif/Gen/C19.lean": body}
 
@@ -209,6 +225,13 @@ def _show_ns(ns):
     return " ".join("%s=%s" % (enc_str(k), _show_val(v)) for k, v in sorted(vars(ns).items()))
 
 
+POS_KW = {"pos1": {}, "pos?": {"nargs": "?"}, "pos*": {"nargs": "*"}, "pos+": {"nargs": "+"}}
+
+
+def _sw(t):
+    return {"_no_log": t[0] == "1", "_no_log_file": t[1] == "1", "_help_if_no_args": t[2] == "1"}
+
+
 class _Session:
     """the adapter: one ArgParser driven by protocol lines"""
 
@@ -216,45 +239,54 @@ class _Session:
         self.p = None
         self.poisoned = False
 
-    def parse(self, toks):
+    def parse_list(self, lst):
         err, out = io.StringIO(), io.StringIO()
         try:
             with contextlib.redirect_stderr(err), contextlib.redirect_stdout(out):
-                ns = self.p.parse_args([_fresh(t) for t in toks])
+                ns = self.p.parse_args(lst)
             return "ok " + _show_ns(ns)
         except SystemExit as e:
             return "err SystemExit %s" % (e.code,)
         except Exception as e:
             return "err " + type(e).__name__
 
+    def parse(self, toks):
+        return self.parse_list([_fresh(t) for t in toks])
+
     def line(self, line):
         ct = _mod()
         op, *args = line.split()
         if op == "new":
             self.p, self.poisoned = None, False
-            dflt = None if args[0] == "-" else dec_str(args[0])
+            dflt = None if args[1] == "-" else dec_str(args[1])
             cmds = []
-            for i, a in enumerate(args[1:]):
+            for i, a in enumerate(args[2:]):
                 cmds.append((dec_str(a), "help %d" % i if i % 2 else ("help %d" % i, "description %d" % i)))
             try:
-                self.p = ct.ArgParser(commands=cmds, default_command=dflt, prog="x")
+                self.p = ct.ArgParser(commands=cmds, default_command=dflt, prog="x", **_sw(args[0]))
                 return "ok"
             except Exception as e:
                 return "err " + type(e).__name__
+        if op == "single":
+            self.poisoned = False
+            self.p = ct.ArgParser(prog="x", **_sw(args[0]))
+            return "ok"
         if self.p is None:
             return "no-parser"
         if self.poisoned:
             return "poisoned"
         if op == "deps":
+            if self.p.command_parsers is None:
+                return "deps"
             return " ".join(["deps"] + ["%s:%s" % (enc_str(n), "/".join(enc_str(d) for d in q._dependent_parsers))
                                         for n, q in self.p.command_parsers.items()])
         if op == "opt":
             target, kind, strs = args[0], args[1], [dec_str(a) for a in args[2:]]
             try:
                 obj = self.p if target == "*" else self.p.get_cmd_parser(dec_str(target))
-            except ValueError:
-                return "err ValueError"
-            kw = {"flag": {"action": "store_true"}, "value": {}, "pos": {"nargs": "*"}}[kind]
+            except (ValueError, AssertionError) as e:
+                return "err " + type(e).__name__
+            kw = {"flag": {"action": "store_true"}, "value": {}}.get(kind) if not kind.startswith("pos") else POS_KW[kind]
             try:
                 obj.add_argument(*strs, **kw)
                 return "ok"
@@ -263,6 +295,15 @@ class _Session:
                 return "err " + type(e).__name__
         if op == "parse":
             return self.parse([dec_str(a) for a in args])
+        if op == "parse2":
+            lst = [_fresh(dec_str(a)) for a in args]
+            r1 = self.parse_list(lst)
+            r2 = self.parse_list(lst)          # the same list object, as the first call left it
+            return "%s | %s" % (r1, r2)
+        if op == "lst":
+            lst = [_fresh(dec_str(a)) for a in args]
+            self.parse_list(lst)               # what the call leaves in the caller's list (diagnostic)
+            return "L:" + "/".join("N" if x is None else enc_str(x) for x in lst)
         return "bad-op"
 
 
@@ -274,7 +315,8 @@ def impl(case):
 def observable(i, line):
     # the dependents map is internal; add_argument's own outcome is not named by observe_at
     # (its effect is observed by the parse lines that follow)
-    return not (line.startswith("deps") or line.startswith("opt "))
+    # the caller's list after the call (`lst`) is not named by observe_at either
+    return not (line.startswith("deps") or line.startswith("opt ") or line.startswith("lst"))
 
 
 # ------------------------------------------------------------------ oracle: the property itself
@@ -319,30 +361,62 @@ def _o_graph(decl_strs):
     return decls, valid, anc
 
 
-def _std_specs():
-    """standard options as the statement names them (color and verbosity), read from a fresh single parser"""
-    return [(["-v", "--verbose"], "count", "verbose"), (["--color"], "color", "color"), (["--no-color"], "nocolor", None)]
-
-
 COLOR_CHOICES = ["auto", "always", "yes", "1", "never", "no", "0"]
+HELP_SPEC = (["-h", "--help"], "help")
+
+
+def _std_specs(no_log):
+    """the standard options as the statement names them (color and verbosity; -v is absent under _no_log)"""
+    out = [HELP_SPEC]
+    if not no_log:
+        out.append((["-v", "--verbose"], "count"))
+    return out + [(["--color"], "color"), (["--no-color"], "nocolor")]
 
 
 def _dest(strs, kind):
-    if kind == "pos":
+    if kind.startswith("pos"):
         return strs[0]
     longs = [s for s in strs if s.startswith("--")]
     return (longs[0][2:] if longs else strs[0][1:]).replace("-", "_")
 
 
-def _expect(rest, acc, all_strings):
-    """what the statement implies for the arguments `rest` of a command whose accepted specs are `acc`
-    (list of (strings, kind)); returns ('exit',) | ('ns', dict) | None (no claim)"""
-    by_str = {}
-    for strs, kind in acc:
-        if kind != "pos":
-            for s in strs:
-                by_str[s] = (strs, kind)
-    has_pos = [strs[0] for strs, kind in acc if kind == "pos"]
+def _is_word(t):
+    return not t.startswith("-") or t == "-" or (len(t) > 1 and t[1:].isdigit() and t[1:].isascii())
+
+
+def _resolve(t, table):
+    """argparse's reading of one token against the option strings of ONE parser:
+    'word' | 'unknown' | 'abbreviation' | (spec, single_dash, attached_text_or_None)"""
+    if not t.startswith("-") or t == "-":
+        return "word"
+    if t in table:
+        return (table[t], not t.startswith("--"), None)
+    name, eq, val = t.partition("=")
+    if eq and name in table:
+        return (table[name], not name.startswith("--"), val)
+    if t.startswith("--"):
+        m = [s for s in table if s.startswith(name)]
+        # the beginning of one or several option strings: what argparse makes of it depends on `allow_abbrev`,
+        # which the statement does not fix — no claim (the model and the theorems cover the code's setting)
+        return "abbreviation" if m else "unknown"
+    if t[:2] in table:
+        return (table[t[:2]], True, t[2:])
+    return "word" if _is_word(t) else "unknown"
+
+
+def _expect(rest, acc):
+    """what the statement implies for the arguments `rest` of a command whose option table is `acc`
+    (list of (strings, kind), the standard ones included): ('exit',) | ('ns', dict) | None (no claim).
+    Everything argparse refuses (unknown or ambiguous option, missing or unwanted value, bad colour,
+    --color with --no-color, words nobody takes, a missing required positional) and help end in SystemExit."""
+    table = {}
+    for spec in acc:
+        if not spec[1].startswith("pos"):
+            for s in spec[0]:
+                table[s] = spec
+    poss = [spec for spec in acc if spec[1].startswith("pos")]
+    if len(poss) > 1:
+        return None                       # several positionals: argparse's own business
     ns = {}
     for strs, kind in acc:
         d = _dest(strs, kind)
@@ -354,81 +428,124 @@ def _expect(rest, acc, all_strings):
             ns.setdefault(d, 0)
         elif kind == "color":
             ns.setdefault(d, "auto")
-    if len(set(has_pos)) != len(has_pos) or len(has_pos) > 1:
-        return None                       # several positionals: argparse's own business
-    must_exit = False
+    # abbreviations (possibly ambiguous ones, which argparse refuses before anything else) anywhere before '--'
+    for t in rest:
+        if t == "--":
+            break
+        if _resolve(t, table) == "abbreviation":
+            return None
+    EXIT = ("exit",)
     color_seen = nocolor_seen = False
     runs, cur = [], None
+    after_dd = False
     i = 0
+
+    def word(tok, dash):
+        nonlocal cur
+        if cur is None:
+            cur = []
+            runs.append(cur)
+        cur.append((tok, dash))
+
     while i < len(rest):
         t = rest[i]
         i += 1
-        if t in ("-h", "--help"):
-            return ("exit",)
-        if not t.startswith("-") or t == "-":
-            if cur is None:
-                cur = []
-                runs.append(cur)
-            cur.append(t)
+        if after_dd:
+            word(t, False)
+            continue
+        if t == "--":
+            after_dd = True
+            word(t, True)
+            continue
+        r = _resolve(t, table)
+        if r == "word":
+            word(t, False)
             continue
         cur = None
-        name, eq, val = t.partition("=")
-        if not t.startswith("--"):
-            if len(t) != 2:
-                return None
-            name, eq, val = t, "", ""
-        if name not in all_strings:
-            if any(s.startswith(name) for s in all_strings) or len(name) < 3 and not name[1:].isalpha():
-                return None               # abbreviation / negative number: outside the claim
-            must_exit = True              # an option nobody declared
-            continue
-        if name not in by_str:
-            must_exit = True              # declared elsewhere, not inherited by this command
-            continue
-        strs, kind = by_str[name]
+        if r == "unknown":
+            return EXIT
+        spec, single, att = r
+        # -xyz: options without argument are peeled off, one character each
+        todo = []
+        while att is not None and single and spec[1] in ("flag", "nocolor", "count", "help"):
+            if att == "":
+                return EXIT
+            todo.append(spec)
+            nxt = "-" + att[0]
+            if nxt not in table:
+                return EXIT
+            spec, att = table[nxt], (att[1:] or None)
+        for sp in todo + [spec]:
+            if sp[1] == "help":
+                return EXIT
+        for sp in todo:
+            d = _dest(*sp)
+            if sp[1] == "flag":
+                ns[d] = True
+            elif sp[1] == "nocolor":
+                nocolor_seen = True
+            elif sp[1] == "count":
+                ns[d] = ns.get(d, 0) + 1
+        strs, kind = spec
         d = _dest(strs, kind)
-        if kind == "flag":
-            if eq:
-                must_exit = True
-            ns[d] = True
-        elif kind == "nocolor":
-            if eq:
-                must_exit = True
-            nocolor_seen = True
-        elif kind == "count":
-            if eq:
-                must_exit = True
-            ns[d] = ns.get(d, 0) + 1
+        nxt_is_word = i < len(rest) and rest[i] != "--" and _resolve(rest[i], table) == "word"
+        if kind in ("flag", "nocolor", "count"):
+            if att is not None:
+                return EXIT
+            if kind == "flag":
+                ns[d] = True
+            elif kind == "nocolor":
+                nocolor_seen = True
+            else:
+                ns[d] = ns.get(d, 0) + 1
         elif kind == "value":
-            if eq:
-                ns[d] = val
-            elif i < len(rest) and (not rest[i].startswith("-") or rest[i] == "-"):
+            if att is not None:
+                ns[d] = att
+            elif nxt_is_word:
                 ns[d] = rest[i]
                 i += 1
             else:
-                must_exit = True
+                return EXIT
         elif kind == "color":
             color_seen = True
-            if eq:
-                v = val
-            elif i < len(rest) and (not rest[i].startswith("-") or rest[i] == "-"):
+            if att is not None:
+                v = att
+            elif nxt_is_word:
                 v = rest[i]
                 i += 1
             else:
                 v = None
             if v is not None and v not in COLOR_CHOICES:
-                must_exit = True
+                return EXIT
             ns[d] = v
-    if color_seen and nocolor_seen:
-        must_exit = True
-    if len(runs) > 1 or (runs and not has_pos):
-        must_exit = True
-    if must_exit:
-        return ("exit",)
-    if has_pos:
-        ns[has_pos[0]] = runs[0] if runs else []
+        if color_seen and nocolor_seen:
+            return EXIT
+    # the words
+    if len(runs) > 1 or (runs and not poss):
+        return EXIT
+    if poss:
+        strs, kind = poss[0]
+        run = runs[0] if runs else []
+        words = [w for w, dash in run if not dash]
+        has_dash = len(words) != len(run)
+        if kind in ("pos1", "pos?") and has_dash and len(run) > 1:
+            return None                   # '--' next to a single-word positional: argparse's pattern details
+        if kind == "pos*":
+            ns[strs[0]] = words
+        elif kind == "pos+":
+            if not words:
+                return EXIT
+            ns[strs[0]] = words
+        elif kind == "pos1":
+            if len(words) != 1:
+                return EXIT
+            ns[strs[0]] = words[0]
+        else:
+            if len(words) > 1:
+                return EXIT
+            ns[strs[0]] = words[0] if words else None
     if nocolor_seen:
-        ns["color"] = False
+        ns.pop("color", None)             # what --no-color does to `color` is the code's choice, not the statement's
     return ("ns", ns)
 
 
@@ -455,10 +572,11 @@ def _ns_mismatch(cmd, ns, rep):
 def oracle(case, replies):
     lines = case["lines"]
     if not lines or not lines[0].startswith("new "):
-        return None
+        return None                       # the single-command ArgParser is outside the statement: tie only
     args = lines[0].split()[1:]
-    dflt = None if args[0] == "-" else dec_str(args[0])
-    decl_strs = [dec_str(a) for a in args[1:]]
+    sw = _sw(args[0])
+    dflt = None if args[1] == "-" else dec_str(args[1])
+    decl_strs = [dec_str(a) for a in args[2:]]
     decls, valid, anc = _o_graph(decl_strs)
     if not valid:
         return None       # outside the quantifier (malformed, or blanks / empty pieces in a parent list): no claim
@@ -468,9 +586,8 @@ def oracle(case, replies):
     public = [n for n, internal, _ in decls if not internal]
     if dflt is None:
         dflt = public[0] if public else None
-    std = [(s, k) for s, k, _ in _std_specs()]
+    std = _std_specs(sw["_no_log"])
     has = {n: list(std) for n in names}               # specs each parser must accept, by the statement
-    all_strings = set(s for strs, _ in std for s in strs) | {"-h", "--help"}
     sess = None
     alive = True
     for line, rep in zip(lines[1:], replies[1:]):
@@ -481,7 +598,8 @@ def oracle(case, replies):
             if target is not None and target not in names:
                 continue                               # get_cmd_parser raises; nothing is added
             recv = [n for n in names if target is None or n == target or target in anc[n]]
-            conflict = kind != "pos" and any(s in strs for n in recv for ss, k in has[n] if k != "pos" for s in ss)
+            conflict = not kind.startswith("pos") and any(
+                s in strs for n in recv for ss, k in has[n] if not k.startswith("pos") for s in ss)
             if conflict or rep != "ok":
                 if not conflict:
                     return "add-option: %s %s on %r is refused (%s) although no receiving parser has these strings" % (
@@ -490,10 +608,19 @@ def oracle(case, replies):
                 continue
             for n in recv:
                 has[n].append((strs, kind))
-            if kind != "pos":
-                all_strings |= set(strs)
-        elif op == "parse" and alive:
+        elif op in ("parse", "parse2") and alive:
             argv = [dec_str(x) for x in a]
+            if op == "parse2":
+                parts = rep.split(" | ")
+                if len(parts) != 2:
+                    return "repeat: malformed reply %s" % rep
+                rep = parts[0]
+                if parts[1] != parts[0]:
+                    return "repeat: %r -> %s, parsed again from the same list object -> %s" % (argv, parts[0], parts[1])
+            if not argv and sw["_help_if_no_args"]:
+                if not rep.startswith("err SystemExit"):
+                    return "help: no arguments with _help_if_no_args -> %s" % rep
+                continue
             first = argv[0] if argv else None
             if first in ("-h", "--help"):
                 if not rep.startswith("err SystemExit"):
@@ -511,14 +638,15 @@ def oracle(case, replies):
                 want = sess.parse([dflt] + argv)
                 if rep != want:
                     # known finding c19b, and nothing else: the first word is the name of an internal '!' option
-                    # set, the code exits with 'invalid choice' and the default command would have accepted it
-                    c19b = (first in names and first not in public and rep == "err SystemExit 2" and want.startswith("ok "))
+                    # set, the code exits with 'invalid choice' and the default command would have accepted it (or shown its help)
+                    c19b = (first in names and first not in public and rep == "err SystemExit 2"
+                            and (want.startswith("ok ") or want == "err SystemExit 0"))
                     kind = "default-internal-name" if c19b else "default-command"
                     return "%s: %r -> %s but %r -> %s" % (kind, argv, rep, [dflt] + argv, want)
                 cmd, rest = dflt, argv
             else:
                 cmd, rest = first, argv[1:]
-            exp = _expect(rest, has[cmd], all_strings)
+            exp = _expect(rest, has[cmd])
             if exp is None:
                 continue
             if exp[0] == "exit":
@@ -540,23 +668,20 @@ KNOWN = {"c19b_internal_name_as_command": _is_c19b}
 
 
 # ------------------------------------------------------------------ generators
-NAMES = ["a", "b", "c", "d", "e", "f", "g", "run", "build", "cmd1", "x_y", "opts", "o", "base"]
-LONGS = ["--fa", "--fb", "--gc", "--gd", "--alpha", "--beta", "--dry-run", "--x", "--out", "--in-dir"]
-SHORTS = ["-a", "-b", "-d", "-e", "-o", "-q"]
+# names that contain each other, share prefixes, contain '-', '_', digits, upper case; substrings of '-h--help'
+NAMES = ["a", "b", "c", "d", "e", "f", "g", "run", "build", "cmd1", "cmd10", "x_y", "opts", "o", "base", "ab", "abc",
+         "log", "log-all", "log_all", "lo", "st", "status", "show", "show-all", "Log", "LOG", "x-1", "2fa", "h", "help", "he",
+         "hel", "l", "p", "options", "opt"]
+# option strings with abbreviation structure (prefixes of each other and of the standard ones)
+LONGS = ["--fa", "--fb", "--gc", "--gd", "--alpha", "--alp", "--beta", "--dry-run", "--dry", "--x", "--out", "--output",
+         "--in-dir", "--arg-one", "--arg-two", "--arg", "--col", "--verb", "--no", "--he", "--colors"]
+SHORTS = ["-a", "-b", "-d", "-e", "-o", "-q", "-f", "-g"]
 POS = ["items", "files"]
-WORDS = ["w", "w1", "zz", "always", "never", "auto", "0", "x=y", "items"]
-UNKNOWN = ["--zz", "-z", "--unknown", "--zz=1"]
-STD_TOKS = ["-v", "--verbose", "--color", "--no-color", "--color=always", "--color=never", "--color=bad", "--color=auto"]
-
-
-def _check_pool():
-    allo = LONGS + SHORTS + ["-v", "--verbose", "--color", "--no-color", "-h", "--help"]
-    for x in allo + [u.split("=")[0] for u in UNKNOWN]:
-        for y in allo:
-            assert x == y or not y.startswith(x), (x, y)
-
-
-_check_pool()
+WORDS = ["w", "w1", "zz", "always", "never", "auto", "0", "x=y", "items", "-", "", "-1", "-42", "h", "help", "e"]
+UNKNOWN = ["--zz", "-z", "--unknown", "--zz=1", "-zf", "--z"]
+STD_TOKS = ["-v", "--verbose", "--color", "--no-color", "--color=always", "--color=never", "--color=bad", "--color=auto",
+            "-vv", "-vvv", "--verb", "--v", "--c", "--col=never", "--no-c", "--n", "--co", "--colo=1"]
+HELPISH = ["-", "--", "", "h", "help", "e", "l", "p", "--h", "--he", "--hel", "-h-", "-h--", "-hx", "--help=1", "he", "lp"]
 
 
 def _render_decl(rng, name, internal, parents, sloppy):
@@ -568,7 +693,7 @@ def _render_decl(rng, name, internal, parents, sloppy):
                 ps.insert(rng.randrange(len(ps) + 1), rng.choice(ps))       # repeated parent
             if rng.random() < 0.3:
                 ps.insert(rng.randrange(len(ps) + 1), rng.choice(["", " ", "\t"]))   # empty piece
-            ps = [rng.choice(["", " ", "  ", "\t", "\x0b", "\x1f", "\xa0", "\u2003"]) + p + rng.choice(["", " ", " \t", "\u3000", "\x0c"])
+            ps = [rng.choice(["", " ", "  ", "\t", "\x0b", "\x1f", "\xa0", " "]) + p + rng.choice(["", " ", " \t", "　", "\x0c"])
                   for p in ps]
         s += ":" + ",".join(ps)
     return s
@@ -578,8 +703,20 @@ def _gen_graph(rng, big):
     """list of (name, internal, parents) — parents refer to earlier names"""
     n = rng.choice([1, 2, 2, 3, 3, 4, 4, 5, 5, 6, 7] + ([9, 12] if big else []))
     pool = list(NAMES) + ["n%d" % i for i in range(12)]
-    names = rng.sample(pool, n)
-    shape = rng.choice(["chain", "forest", "diamond", "random", "random", "dense", "redundant", "flat"])
+    if rng.random() < 0.35:
+        # a family of names that are substrings / prefixes of each other
+        fam = rng.choice([["log", "log-all", "log_all", "lo", "Log", "LOG"], ["st", "status", "show", "show-all", "a"],
+                          ["ab", "abc", "a", "base", "b"], ["h", "help", "he", "hel", "l", "p"], ["cmd1", "cmd10", "opt", "opts", "options"]])
+        pool = fam + rng.sample(pool, 6)
+        names = []
+        for x in pool:
+            if x not in names:
+                names.append(x)
+        names = names[:n]
+        rng.shuffle(names)
+    else:
+        names = rng.sample(pool, n)
+    shape = rng.choice(["chain", "forest", "diamond", "random", "random", "dense", "redundant", "flat", "late-arm"])
     decls = []
     for i, nm in enumerate(names):
         prev = names[:i]
@@ -597,6 +734,9 @@ def _gen_graph(rng, big):
         elif shape == "redundant":
             # a parent together with one of that parent's ancestors
             parents = [prev[-1]] + ([rng.choice(prev[:-1])] if len(prev) > 1 else [])
+        elif shape == "late-arm":
+            # two arms sharing the root, the second arm declared after the first: r; x:r; y:r; y2:y; z:x,y2
+            parents = [prev[0]] if i in (1, 2) else ([prev[2]] if i == 3 else ([prev[1], prev[-1]] if i == 4 else [rng.choice(prev)]))
         else:
             parents = [p for p in prev if rng.random() < 0.35]
         rng.shuffle(parents)
@@ -608,9 +748,9 @@ def _gen_graph(rng, big):
 
 def _spec(rng):
     r = rng.random()
-    if r < 0.12:
-        return "pos", [rng.choice(POS)]
-    strs = [rng.choice(LONGS)] if rng.random() < 0.7 else [rng.choice(SHORTS)]
+    if r < 0.16:
+        return rng.choice(["pos*", "pos*", "pos*", "pos1", "pos?", "pos+"]), [rng.choice(POS)]
+    strs = [rng.choice(LONGS)] if rng.random() < 0.65 else [rng.choice(SHORTS)]
     if rng.random() < 0.2:
         strs = [rng.choice(SHORTS), rng.choice(LONGS)]
         if rng.random() < 0.3:
@@ -618,25 +758,45 @@ def _spec(rng):
     return ("flag" if rng.random() < 0.6 else "value"), strs
 
 
-def _o_anc(decls):
-    anc = {}
-    for name, _, parents in decls:
-        a = set()
-        for p in parents:
-            a.add(p)
-            a |= anc.get(p, set())
-        anc[name] = a
-    return anc
+def _abbrev(rng, s):
+    """a proper prefix of a long option string (at least '--' + one character)"""
+    if s.startswith("--") and len(s) > 3:
+        return s[:rng.randrange(3, len(s))]
+    return s
 
 
 def _use(rng, kind, s):
+    if s.startswith("--") and rng.random() < 0.25:
+        s = _abbrev(rng, s)
     if kind == "value":
-        return [s + "=" + rng.choice(WORDS[:5])] if s.startswith("--") and rng.random() < 0.4 else [s, rng.choice(WORDS[:5])]
+        w = rng.choice(WORDS[:5])
+        if s.startswith("--"):
+            return [s + "=" + w] if rng.random() < 0.4 else [s, w]
+        r = rng.random()
+        return [s + w] if r < 0.25 else [s + "=" + w] if r < 0.4 else [s, w]
     return [s]
 
 
-def _parse_line(argv):
-    return " ".join(["parse"] + [enc_str(t) for t in argv])
+def _cluster(rng, shorts):
+    """-xyz built from the short options in play (flags first, maybe a value option last) and -v"""
+    flags = [s for k, s in shorts if k == "flag"] + ["-v"]
+    vals = [s for k, s in shorts if k == "value"]
+    t = "-" + "".join(rng.choice(flags)[1] for _ in range(rng.choice([1, 2, 2, 3])))
+    if vals and rng.random() < 0.4:
+        t += rng.choice(vals)[1]
+        if rng.random() < 0.5:
+            return [t + rng.choice(["x", "w1", "=y"])]
+        return [t, rng.choice(WORDS[:4])]
+    if rng.random() < 0.15:
+        t += rng.choice(["z", "h", "-", "=1"])
+    return [t]
+
+
+def _parse_line(argv, twice=False):
+    return " ".join(["parse2" if twice else "parse"] + [enc_str(t) for t in argv])
+
+
+CTOR_FAILS = ("unknown-parent", "forward", "self", "dup", "empty", "empty-internal", "no-commands")
 
 
 def _gen_case(rng, tier, stream):
@@ -651,6 +811,10 @@ def _gen_case(rng, tier, stream):
     dflt = "-"
     if rng.random() < 0.2:
         dflt = enc_str(rng.choice(public))
+    sw = "000"
+    if rng.random() < 0.12:
+        sw = "".join(rng.choice("01") for _ in range(3))
+        meta["switches"] = sw
     if stream == "malformed":
         how = rng.choice(["unknown-parent", "forward", "self", "dup", "empty", "empty-internal", "no-commands",
                           "bad-default", "all-internal", "colon-name", "bang-bang"])
@@ -678,8 +842,8 @@ def _gen_case(rng, tier, stream):
             dstrs[i] = dstrs[i] + ":" + names[0]          # second ':' belongs to the parent list
         elif how == "bang-bang":
             dstrs[i] = "!" + ("!" + dstrs[i] if not dstrs[i].startswith("!") else dstrs[i])
-    lines = ["new " + " ".join([dflt] + [enc_str(s) for s in dstrs]), "deps"]
-    if meta.get("malformed") in ("unknown-parent", "forward", "self", "dup", "empty", "empty-internal", "no-commands"):
+    lines = ["new " + " ".join([sw, dflt] + [enc_str(s) for s in dstrs]), "deps"]
+    if meta.get("malformed") in CTOR_FAILS:
         # the constructor raises: one option and one argv are enough to see that nothing was built
         lines.append("opt * flag " + enc_str("--fa"))
         lines.append(_parse_line([names[0]]))
@@ -689,9 +853,16 @@ def _gen_case(rng, tier, stream):
     placed = []
     nopt = rng.choice([0, 1, 2, 3, 3, 4, 5, 7])
     used = set()
+    the_default = dec_str(dflt) if dflt != "-" else (public[0] if public else None)
+    if stream == "free-positional" and the_default:
+        # the default command takes free words
+        kind = rng.choice(["pos*", "pos*", "pos+", "pos?", "pos1"])
+        target = rng.choice([the_default] + [p for d in decls if d[0] == the_default for p in d[2]])
+        placed.append((enc_str(target), kind, ["items"]))
+        lines.append("opt %s %s %s" % (enc_str(target), kind, enc_str("items")))
     for _ in range(nopt):
         kind, strs = _spec(rng)
-        if stream != "conflict" and kind != "pos":
+        if stream != "conflict" and not kind.startswith("pos"):
             # fresh strings: no conflict can arise (oracle expects success)
             if any(s in used for s in strs):
                 continue
@@ -702,8 +873,10 @@ def _gen_case(rng, tier, stream):
             target = enc_str("nosuch")
         else:
             target = enc_str(rng.choice(names))
-        if kind == "pos" and any(k == "pos" for _, k, _ in placed):
-            continue
+        if kind.startswith("pos") and any(k.startswith("pos") for _, k, _ in placed):
+            # a second positional only when all are nargs='*' (the modelled shape)
+            if rng.random() < 0.9 or kind != "pos*" or any(k.startswith("pos") and k != "pos*" for _, k, _ in placed):
+                continue
         used |= set(strs)
         placed.append((target, kind, strs))
         lines.append("opt %s %s %s" % (target, kind, " ".join(enc_str(s) for s in strs)))
@@ -711,7 +884,7 @@ def _gen_case(rng, tier, stream):
 
     # argv: every (public command, option string) once, with its simplest use
     argvs = []
-    pairs = [(c, kind, s) for c in public for (_, kind, strs) in placed if kind != "pos" for s in strs]
+    pairs = [(c, kind, s) for c in public for (_, kind, strs) in placed if not kind.startswith("pos") for s in strs]
     rng.shuffle(pairs)
     for c, kind, s in pairs[: (12 if tier == "quick" else 40)]:
         argvs.append([c] + _use(rng, kind, s))
@@ -719,33 +892,40 @@ def _gen_case(rng, tier, stream):
         argvs.append([c] + [rng.choice(STD_TOKS)])
     argvs.append([])
     # random argv
-    toks_opt = [(kind, s) for (_, kind, strs) in placed if kind != "pos" for s in strs]
+    toks_opt = [(kind, s) for (_, kind, strs) in placed if not kind.startswith("pos") for s in strs]
+    shorts = [(k, s) for k, s in toks_opt if not s.startswith("--")]
     for _ in range(rng.choice([2, 4, 6]) if tier == "quick" else 12):
         argv = []
         r = rng.random()
-        if r < 0.65 and public:
+        if r < 0.6 and public:
             argv.append(rng.choice(public))
-        elif r < 0.72:
-            argv.append(rng.choice(["nosuch", "w"]))
+        elif r < 0.67:
+            argv.append(rng.choice(["nosuch", "w"] + NAMES[:12]))
+        elif r < 0.75 or stream == "free-positional" and r < 0.9:
+            argv.append(rng.choice(HELPISH))
         for _ in range(rng.choice([0, 1, 1, 2, 2, 3, 5])):
             r = rng.random()
-            if r < 0.5 and toks_opt:
+            if r < 0.42 and toks_opt:
                 kind, s = rng.choice(toks_opt)
                 argv += _use(rng, kind, s) if rng.random() < 0.9 else [s]
-            elif r < 0.7:
+            elif r < 0.5 and shorts:
+                argv += _cluster(rng, shorts)
+            elif r < 0.66:
                 argv.append(rng.choice(STD_TOKS))
-                if argv[-1] == "--color" and rng.random() < 0.5:
-                    argv.append(rng.choice(["always", "never", "auto", "bad", "1"]))
-            elif r < 0.82:
+                if argv[-1] in ("--color", "--c", "--co") and rng.random() < 0.5:
+                    argv.append(rng.choice(["always", "never", "auto", "bad", "1", "--"]))
+            elif r < 0.8:
                 argv.append(rng.choice(WORDS))
+            elif r < 0.85:
+                argv.append("--")
             elif r < 0.9:
                 argv.append(rng.choice(UNKNOWN))
-            elif r < 0.95:
-                argv.append(rng.choice(["-h", "--help"]))
+            elif r < 0.94:
+                argv.append(rng.choice(["-h", "--help", "--he", "--h"]))
             else:
                 kind, strs = _spec(rng)
-                if kind != "pos":
-                    argv.append(strs[0])
+                if not kind.startswith("pos"):
+                    argv.append(_abbrev(rng, strs[0]) if rng.random() < 0.5 else strs[0])
         argvs.append(argv)
     if stream == "internal-first" and internal:
         o = rng.choice(internal)
@@ -759,13 +939,66 @@ def _gen_case(rng, tier, stream):
         if k in seen:
             continue
         seen.add(k)
-        lines.append(_parse_line(argv))
+        lines.append(_parse_line(argv, twice=rng.random() < 0.15))
+        if rng.random() < 0.08:
+            lines.append(" ".join(["lst"] + [enc_str(t) for t in argv]))
     return {"lines": lines, "meta": meta}
 
 
+def _gen_single(rng, tier):
+    """the ArgParser without commands: standard options, add_argument, switches (tie only)"""
+    sw = "".join(rng.choice("01") if rng.random() < 0.4 else "0" for _ in range(3))
+    lines = ["single " + sw, "deps"]
+    placed = []
+    used = set()
+    for _ in range(rng.choice([0, 1, 2, 3, 4])):
+        kind, strs = _spec(rng)
+        if kind.startswith("pos") and any(k.startswith("pos") for k, _ in placed):
+            continue
+        if rng.random() < 0.85 and any(s in used for s in strs):
+            continue
+        used |= set(strs)
+        placed.append((kind, strs))
+        target = "*" if rng.random() < 0.92 else enc_str("a")
+        lines.append("opt %s %s %s" % (target, kind, " ".join(enc_str(s) for s in strs)))
+    toks_opt = [(kind, s) for kind, strs in placed if not kind.startswith("pos") for s in strs]
+    shorts = [(k, s) for k, s in toks_opt if not s.startswith("--")]
+    argvs = [[], ["-v"], ["--no-color"], ["--color", "never", "-vv"]]
+    for _ in range(6 if tier == "quick" else 14):
+        argv = []
+        for _ in range(rng.choice([0, 1, 2, 2, 3, 4])):
+            r = rng.random()
+            if r < 0.35 and toks_opt:
+                kind, s = rng.choice(toks_opt)
+                argv += _use(rng, kind, s)
+            elif r < 0.45 and shorts:
+                argv += _cluster(rng, shorts)
+            elif r < 0.7:
+                argv.append(rng.choice(STD_TOKS))
+                if argv[-1] == "--color" and rng.random() < 0.5:
+                    argv.append(rng.choice(["always", "never", "auto", "bad", "1"]))
+            elif r < 0.85:
+                argv.append(rng.choice(WORDS))
+            elif r < 0.9:
+                argv.append("--")
+            elif r < 0.95:
+                argv.append(rng.choice(UNKNOWN + ["-h", "--he"]))
+            else:
+                argv.append(rng.choice(LONGS))
+        argvs.append(argv)
+    seen = set()
+    for argv in argvs:
+        if tuple(argv) not in seen:
+            seen.add(tuple(argv))
+            lines.append(_parse_line(argv, twice=rng.random() < 0.2))
+            if rng.random() < 0.1:
+                lines.append(" ".join(["lst"] + [enc_str(t) for t in argv]))
+    return {"lines": lines, "meta": {"kind": "single", "switches": sw}}
+
+
 def corpus():
-    def case(decls, opts, argvs, dflt="-", kind="corpus"):
-        lines = ["new " + " ".join([dflt] + [enc_str(d) for d in decls]), "deps"]
+    def case(decls, opts, argvs, dflt="-", kind="corpus", sw="000"):
+        lines = ["new " + " ".join([sw, dflt] + [enc_str(d) for d in decls]), "deps"]
         for target, k, strs in opts:
             lines.append("opt %s %s %s" % (target if target == "*" else enc_str(target), k, " ".join(enc_str(s) for s in strs)))
         lines += [_parse_line(a) for a in argvs]
@@ -777,22 +1010,30 @@ def corpus():
     out.append(case(["a", "b:a", "d:a,b"], [("a", "flag", ["--fa"])], [["d", "--fa"], ["b", "--fa"], ["--fa"]], kind="corpus-redundant"))
     # the docstring's example
     out.append(case(["!opts_set1", "cmd1", "cmd2:cmd1,opts_set1"],
-                    [("*", "value", ["-s", "--src-dir"]), ("cmd1", "flag", ["-f", "--force"]), ("cmd1", "pos", ["items"]),
+                    [("*", "value", ["-s", "--src-dir"]), ("cmd1", "flag", ["-f", "--force"]), ("cmd1", "pos*", ["items"]),
                      ("opts_set1", "flag", ["--gc"])],
                     [["cmd1", "-f", "x", "y"], ["cmd2", "--force", "--gc", "-s", "d"], ["cmd1", "--gc"], ["x", "y"], ["--gc"]],
                     kind="corpus-docstring"))
+    # an inherited option makes an abbreviation ambiguous in the descendant only
+    out.append(case(["a", "b:a", "c"], [("a", "flag", ["--arg-one"]), ("b", "flag", ["--arg-two"])],
+                    [["a", "--arg"], ["b", "--arg"], ["b", "--arg-o"], ["c", "--arg"], ["b", "-h", "--arg"], ["b", "--arg-t"]],
+                    kind="corpus-abbrev"))
+    # names inside names, first words inside '-h--help', free positionals on the default command
+    out.append(case(["log", "log-all:log", "lo", "all:lo"], [("log", "flag", ["--fa"]), ("lo", "flag", ["--fb"]), ("log", "pos*", ["items"])],
+                    [["all", "--fa"], ["all", "--fb"], ["log-all", "--fb"], ["log-all", "--fa"], ["-"], ["--"], [""], ["h"], ["help"],
+                     ["--", "x"], ["-", "x"], ["e", "l", "p"]], kind="corpus-names"))
     return out
 
 
 def _c19b_cases():
     def case(decls, opts, argvs):
-        lines = ["new " + " ".join(["-"] + [enc_str(d) for d in decls]), "deps"]
+        lines = ["new " + " ".join(["000", "-"] + [enc_str(d) for d in decls]), "deps"]
         for target, k, strs in opts:
             lines.append("opt %s %s %s" % (enc_str(target), k, " ".join(enc_str(s) for s in strs)))
         lines += [_parse_line(a) for a in argvs]
         return {"lines": lines, "meta": {"kind": "c19b-internal-first"}}
-    yield case(["!o", "a:o"], [("a", "pos", ["items"])], [["o"], ["a", "o"], ["w"]])
-    yield case(["!o", "a:o", "b"], [("o", "pos", ["files"]), ("o", "flag", ["--fa"])], [["o", "--fa"], ["o"]])
+    yield case(["!o", "a:o"], [("a", "pos*", ["items"])], [["o"], ["a", "o"], ["w"]])
+    yield case(["!o", "a:o", "b"], [("o", "pos*", ["files"]), ("o", "flag", ["--fa"])], [["o", "--fa"], ["o"]])
 
 
 WS = [9, 10, 11, 12, 13, 28, 29, 30, 31, 32, 0x85, 0xa0, 0x1680] + list(range(0x2000, 0x200b)) + [
@@ -807,19 +1048,23 @@ def _ws_cases(rng, tier):
     else:
         cps = [c for c in list(range(0, 0x3100)) + [0xfeff, 0x1d7ce, 0xe0020] if not 0xd800 <= c <= 0xdfff]
     for c in cps:
-        yield {"lines": ["new - 97 " + enc_str("b:" + chr(c) + "a" + chr(c)), _parse_line(["b"])],
+        yield {"lines": ["new 000 - 97 " + enc_str("b:" + chr(c) + "a" + chr(c)), _parse_line(["b"])],
                "meta": {"kind": "strip-char"}}
 
 
 def gen_cases(rng, tier):
-    n = 5000 if tier == "quick" else 60000
+    n = 5000 if tier == "quick" else 50000
     for c in _c19b_cases():
         yield c
     for c in _ws_cases(rng, tier):
         yield c
     for i in range(n):
         r = rng.random()
-        stream = "valid" if r < 0.72 else "conflict" if r < 0.84 else "malformed" if r < 0.97 else "internal-first"
+        if r < 0.06:
+            yield _gen_single(rng, tier)
+            continue
+        stream = ("valid" if r < 0.58 else "free-positional" if r < 0.72 else "conflict" if r < 0.82
+                  else "malformed" if r < 0.97 else "internal-first")
         yield _gen_case(rng, tier, stream)
     if tier != "quick":
         for c in search_cases(rng, tier):
@@ -842,13 +1087,13 @@ def search_cases(rng, tier):
                 for i in range(n):
                     decls.append(("!" if mask >> i & 1 else "") + names[i] + (":" + ",".join(parents[i]) if parents[i] else ""))
                 public = [names[i] for i in range(n) if not mask >> i & 1]
-                lines = ["new - " + " ".join(enc_str(d) for d in decls), "deps"]
+                lines = ["new 000 - " + " ".join(enc_str(d) for d in decls), "deps"]
                 flags = ["--f" + nm for nm in names[:n]]
                 for nm, f in zip(names[:n], flags):
                     lines.append("opt %s flag %s" % (enc_str(nm), enc_str(f)))
                 lines.append("opt * flag " + enc_str("--all"))
                 for c in public:
-                    for f in flags + ["--all", "--no-color"]:
+                    for f in flags + ["--all", "--no-color", "--f"]:
                         lines.append(_parse_line([c, f]))
                 lines.append(_parse_line([flags[0]]))
                 lines.append(_parse_line([]))
@@ -862,24 +1107,31 @@ def shrink(case):
     parses = [i for i, l in enumerate(lines) if l.startswith("parse")]
     # big steps first: keep a single parse line (and no `deps`), or none at all
     if len(parses) > 1 or "deps" in lines:
-        base = [l for l in lines if not l.startswith("parse") and l != "deps"]
+        base = [l for l in lines if not l.startswith(("parse", "lst")) and l != "deps"]
         for i in parses:
             yield {"lines": base + [lines[i]], "meta": meta}
         yield {"lines": base, "meta": meta}
     # drop single lines
     for i in range(len(lines) - 1, 0, -1):
-        if lines[i].startswith("parse") or lines[i].startswith("opt") or lines[i] == "deps":
+        if lines[i].startswith(("parse", "opt", "lst")) or lines[i] == "deps":
             yield {"lines": lines[:i] + lines[i + 1:], "meta": meta}
-    # drop a declaration nobody refers to
+    if not lines[0].startswith("new "):
+        return
     head = lines[0].split()
-    decls = head[2:]
+    decls = head[3:]
+    # no switches, no explicit default command
+    if head[1] != "000":
+        yield {"lines": [" ".join([head[0], "000", head[2]] + decls)] + lines[1:], "meta": meta}
+    if head[2] != "-":
+        yield {"lines": [" ".join([head[0], head[1], "-"] + decls)] + lines[1:], "meta": meta}
+    # drop a declaration nobody refers to
     for i in range(len(decls) - 1, -1, -1):
         nm = _o_decl(dec_str(decls[i]))[0]
         if any(nm in _o_decl(dec_str(d))[2] for d in decls[i + 1:]):
             continue
         if any(l.startswith("opt " + enc_str(nm) + " ") for l in lines):
             continue
-        yield {"lines": [" ".join(head[:2] + decls[:i] + decls[i + 1:])] + lines[1:], "meta": meta}
+        yield {"lines": [" ".join(head[:3] + decls[:i] + decls[i + 1:])] + lines[1:], "meta": meta}
     # drop one parent of one declaration
     for i, d in enumerate(decls):
         ds = dec_str(d)
@@ -889,28 +1141,46 @@ def shrink(case):
             for j in range(len(ps)):
                 rest = ps[:j] + ps[j + 1:]
                 nd = h + (":" + ",".join(rest) if rest else "")
-                yield {"lines": [" ".join(head[:2] + decls[:i] + [enc_str(nd)] + decls[i + 1:])] + lines[1:], "meta": meta}
-    # no explicit default command
-    if head[1] != "-":
-        yield {"lines": [" ".join([head[0], "-"] + decls)] + lines[1:], "meta": meta}
-    # shorten argv
+                yield {"lines": [" ".join(head[:3] + decls[:i] + [enc_str(nd)] + decls[i + 1:])] + lines[1:], "meta": meta}
+    # parse once instead of twice, shorten argv
     for i, l in enumerate(lines):
         if l.startswith("parse"):
-            toks = l.split()[1:]
+            op, *toks = l.split()
+            if op == "parse2":
+                yield {"lines": lines[:i] + [" ".join(["parse"] + toks)] + lines[i + 1:], "meta": meta}
             if len(toks) > 2:
-                yield {"lines": lines[:i] + [" ".join(["parse"] + toks[:1])] + lines[i + 1:], "meta": meta}
+                yield {"lines": lines[:i] + [" ".join([op] + toks[:1])] + lines[i + 1:], "meta": meta}
             for j in range(len(toks) - 1, -1, -1):
-                yield {"lines": lines[:i] + [" ".join(["parse"] + toks[:j] + toks[j + 1:])] + lines[i + 1:], "meta": meta}
+                yield {"lines": lines[:i] + [" ".join([op] + toks[:j] + toks[j + 1:])] + lines[i + 1:], "meta": meta}
 
 
 def nontrivial(case, replies):
-    if not replies or replies[0] != "ok":
+    if not replies or replies[0] != "ok" or not case["lines"][0].startswith("new "):
         return False
-    decls = [_o_decl(dec_str(a)) for a in case["lines"][0].split()[2:]]
+    decls = [_o_decl(dec_str(a)) for a in case["lines"][0].split()[3:]]
     edges = sum(len(d[2]) for d in decls)
     opts = sum(1 for l, r in zip(case["lines"], replies) if l.startswith("opt ") and not l.startswith("opt * ") and r == "ok")
     parses = sum(1 for l in case["lines"] if l.startswith("parse"))
     return edges >= 1 and opts >= 1 and parses >= 2
+
+
+_ALL_LONG = set(LONGS) | {"--help", "--verbose", "--color", "--no-color"}
+
+
+def _tok_tags(argv):
+    for t in argv[:8]:
+        if t == "--":
+            yield "tok:--"
+        elif t.startswith("--") and t.split("=")[0] not in _ALL_LONG and any(x.startswith(t.split("=")[0]) for x in _ALL_LONG):
+            yield "tok:abbreviation"
+        elif t in ("", "-"):
+            yield "tok:empty-or-dash"
+        elif t.startswith("--") and "=" in t:
+            yield "tok:--opt=value"
+        elif t.startswith("-") and not t.startswith("--") and len(t) > 2 and not t[1:].isdigit():
+            yield "tok:-xyz"
+        elif t.startswith("-") and t[1:].isdigit():
+            yield "tok:negative-number"
 
 
 def tags(case, replies):
@@ -920,33 +1190,45 @@ def tags(case, replies):
         yield "shape:" + m["shape"]
     if "malformed" in m:
         yield "malformed:" + m["malformed"]
+    if "switches" in m:
+        yield "switches:" + m["switches"]
     yield "new:" + replies[0]
     for l, r in zip(case["lines"], replies):
         if l.startswith("opt "):
-            yield "opt:" + r
+            yield "opt:%s:%s" % (l.split()[2], r)
         elif l.startswith("parse"):
-            yield "parse:" + " ".join(r.split()[:3] if r.startswith("err") else r.split()[:1])
+            first = r.split(" | ")[0]
+            yield l.split()[0] + ":" + " ".join(first.split()[:3] if first.startswith("err") else first.split()[:1])
+            for t in _tok_tags([dec_str(x) for x in l.split()[1:]]):
+                yield t
 
-
-LEVEL_TEXT = ("Kernel-checked for all declaration lists, all histories of add_argument calls and the stated argv shapes, on the "
-              "model the driver executes: the documented declaration syntax is read back exactly (decl_syntax); eager registration "
-              "yields exactly the transitive closure of the declared parent relation, in every reachable state, and the "
-              "constructor fails exactly on malformed lists, always with AssertionError (closure, build_ok_iff, "
-              "declare_order_irrelevant); a parser's option table is the standard options plus the options placed on the "
-              "ArgParser, on the parser or on one of its ancestors (options_iff, added_to_all); add_argument fails only on "
-              "a real clash of option strings or an unknown command (add_ok_iff); `[cmd, option]` is parsed iff the option "
-              "is in the command's table, else SystemExit(2) (parse_accepts, parse_rejects(_short), accepts_iff end to end); "
-              "the standard options are accepted by every command (std_accepted); argv not starting with the name of a "
-              "declared parser is parsed as the default command = first public command (default_cmd_partial, "
-              "default_is_first_public, command_dispatch). Standard options and the first-argument test are regenerated "
-              "from ak/cli_tools.py on every run. model = code by a differential run (construction outcome, full namespace "
-              "or SystemExit code per argv) and an oracle that computes ancestors from the declarations independently.")
+LEVEL_TEXT = ("Kernel-checked for all declaration lists, all histories of add_argument calls, both _no_log settings and the stated "
+              "argv shapes, on the model the driver executes: the documented declaration syntax is read back exactly (decl_syntax); "
+              "eager registration yields exactly the transitive closure of the declared parent relation in every reachable "
+              "state; the constructor fails exactly on malformed lists, always with AssertionError (closure, build_ok_iff, "
+              "declare_order_irrelevant); a parser's option table / option strings are the standard ones plus those placed on "
+              "the ArgParser, on the parser or on an ancestor (options_iff, strings_iff, added_to_all); add_argument fails "
+              "only on a real clash or an unknown command (add_ok_iff); `[cmd, opt]` gives a namespace with the attribute "
+              "set iff the option is in the command's table, SystemExit(2) otherwise (parse_accepts, parse_rejects(_short)); "
+              "argparse's abbreviation rule composed with inheritance: a unique extension is read as that option whatever "
+              "follows, several extensions are an error anywhere before '--', accepts_iff is the exact criterion "
+              "(abbrev_unique, abbrev_ambiguous, accepts_iff); standard options accepted by every command with their "
+              "post-processing (-v -> 1, -vv..v -> its length, --no-color -> color False, --color -> None, no_color never returned; std_accepted, verbose_cluster); after `--` every word goes to the nargs='*' positional (dd_words); "
+              "default command = first public command, inserted for every first word that names no parser "
+              "(default_is_first_public, default_cmd_partial, command_dispatch); a second parse_args on the list object the "
+              "first call modified gives the same result, in both modes (parse_twice); _no_log_file / _help_if_no_args "
+              "(no_log_file_attr, help_if_no_args); the single-command ArgParser (single_mode). Standard options (with and "
+              "without _no_log) and the first-argument test are regenerated from ak/cli_tools.py on every run. model = code by a "
+              "differential run (construction outcome, full namespace or SystemExit code per argv, the caller's list after the "
+              "call) and an oracle that computes ancestors from the declarations independently and states acceptance/rejection for exact option strings, -xyz clusters, --opt=value, '--' and words (no claim where an abbreviation is involved, about what --no-color does to `color`, about the caller's list, about the single-command parser).")
 LEVEL_NOTE = ("default_cmd is `_partial`: the code also keeps a first word that names an internal '!' option set (known finding "
               "c19b; internal_name_gap and default_cmd_internal_name_counterexample state the code's behaviour, "
-              "default_cmd_full_if_public_test the full statement under the two-line repair). argparse's scan of one parser is "
-              "modelled, not verified, for exact option strings, --opt=value and words; abbreviations, -xyz clusters and '--' "
-              "are outside the model (driver answers `ood`; never generated). Value-option and namespace-content clauses beyond "
-              "[cmd, option(, word)] rest on the correspondence only. Trusted: Lean kernel, translator/adapter/oracle in "
-              "harness/c19.py, sampled correspondence.")
-TECHNIQUE = ("Lean 4 theorems (induction over the declaration list, transitive closure, option-table invariant over histories) + "
-             "translator for the standard options and the first-argument test + correspondence check")
+              "default_cmd_full_if_public_test the full statement under the two-line repair). Proved only through the "
+              "correspondence: -xyz clusters other than -vv.., attached values, '--' with other positionals, nargs forms and longer argv (kernel-evaluated "
+              "examples only), namespace contents beyond the one-option shapes, the single-command parser beyond --no-color. "
+              "Hypotheses kept: `finishable` (no required positional in the command's table) and no positional named like "
+              "a standard attribute. Trusted: Lean kernel, translator/adapter/oracle in harness/c19.py, sampled correspondence, "
+              "argparse itself.")
+TECHNIQUE = ("Lean 4 theorems (induction over the declaration list, transitive closure, option-table invariant over histories, "
+             "argparse's token classifier as a specified function) + translator for the standard options and the first-argument "
+             "test + correspondence check with call sequences")
